@@ -165,6 +165,9 @@ pub fn generate(seed: u64, fault_free: bool) -> AliasOut {
         ..RunCfg::default()
     };
     let mut g = Gen::new(seed, cfg);
+    if !fault_free && g.rng.chance(1, 2) {
+        g.cancel_den = 8 + g.rng.below(12) as u32;
+    }
     let n_stmts = 6 + g.rng.below(30);
     let ill_rate: u32 = if fault_free { 0 } else { 1 + g.rng.below(3) as u32 };
     let mut user_ops: Vec<String> = Vec::new();
